@@ -96,6 +96,8 @@ func (w *worker) doOp(ctx context.Context, b ctlog.LockBackend, base int64, befo
 			w.remember(concHandle{h, id})
 		case "notfound":
 			res = "nf"
+		default:
+			debugErr(err)
 		}
 		return opRecord{spec, st, fin, res}
 	case k < 82 && len(w.pool) > 0:
@@ -122,6 +124,8 @@ func (w *worker) doOp(ctx context.Context, b ctlog.LockBackend, base int64, befo
 			w.remember(concHandle{h, ch.id})
 		case "refused":
 			res = "ref"
+		default:
+			debugErr(err)
 		}
 		return opRecord{spec, st, fin, res}
 	default:
@@ -144,6 +148,12 @@ func (w *worker) doOp(ctx context.Context, b ctlog.LockBackend, base int64, befo
 			res = "ref"
 		}
 		return opRecord{spec, st, fin, res}
+	}
+}
+
+func debugErr(err error) {
+	if os.Getenv("VERIF_DEBUG") != "" {
+		fmt.Fprintln(realStderr, "conc: unexpected error:", err)
 	}
 }
 
@@ -365,6 +375,9 @@ func runConc(seed int64, runs, rounds, nproc int, dir string) {
 					defer wg.Done()
 					r := ws[g].doOp(ctx, conns[g%2], base, func(string, int64) {})
 					mu.Lock()
+					if r.res == "unk" {
+						stats["parent-call-error"]++
+					}
 					recs = append(recs, r)
 					mu.Unlock()
 				}(g)
